@@ -3,6 +3,7 @@ package main
 // C12 — transaction-data parsers are total and inverse to the builders.
 
 import (
+	"go/types"
 	"fmt"
 	"go/token"
 	"strings"
@@ -97,16 +98,28 @@ func c12r3(c *Ctx) {
 		return
 	}
 	sepFields := map[string]bool{}
+	// the pieces the string is put together from: operands of `+`, or arguments of strings.Builder.WriteString
+	pieces := func(in ssa.Instruction) []ssa.Value {
+		switch x := in.(type) {
+		case *ssa.BinOp:
+			if x.Op == token.ADD {
+				return []ssa.Value{x.X, x.Y}
+			}
+		case *ssa.Call:
+			if CalleeName(x) == "(*strings.Builder).WriteString" && len(x.Call.Args) == 2 {
+				return []ssa.Value{x.Call.Args[1]}
+			}
+		}
+		return nil
+	}
 	for _, b := range toString.Blocks {
 		for _, in := range b.Instrs {
-			bo, ok := in.(*ssa.BinOp)
-			if !ok || bo.Op != token.ADD {
-				continue
-			}
-			for _, op := range []ssa.Value{bo.X, bo.Y} {
+			for _, op := range pieces(in) {
 				if ld, ok := op.(*ssa.UnOp); ok {
 					if fa, ok := ld.X.(*ssa.FieldAddr); ok && b.Index != 0 { // inside the loop: the joiner, not the head
-						sepFields[fieldName(fa.X.Type(), fa.Field)] = true
+						if _, isStr := ld.Type().Underlying().(*types.Basic); isStr {
+							sepFields[fieldName(fa.X.Type(), fa.Field)] = true
+						}
 					}
 				}
 			}
@@ -116,8 +129,8 @@ func c12r3(c *Ctx) {
 		// a literal separator in ToString
 		for _, b := range toString.Blocks {
 			for _, in := range b.Instrs {
-				if bo, ok := in.(*ssa.BinOp); ok && bo.Op == token.ADD {
-					for _, op := range []ssa.Value{bo.X, bo.Y} {
+				if bo := in; len(pieces(in)) > 0 {
+					for _, op := range pieces(in) {
 						if k, ok := op.(*ssa.Const); ok {
 							if s, ok := constStringVal(k.Value); ok && b.Index != 0 {
 								if s == sepP {
